@@ -19,7 +19,8 @@ type harnessSpec struct {
 	Quick    tierSpec
 	Thorough tierSpec
 	MapOrder bool
-	Sched    int    // pre-emption budget; -1 = deterministic scheduler
+	Race     bool   // happens-before data race monitor
+	Sched    int    // pre-emption budget; -1 = deterministic scheduler (lowest id first), -2 = fair round-robin at every visible operation
 	Solver   string // primary solver (default z3)
 	Timeout  int    // per query ms (default 20000 quick / 120000 thorough)
 	Bounds   string // human-readable statement of the bounds of this harness
@@ -194,6 +195,8 @@ var registry = []propertySpec{
 				Bounds: "a 2-person document plus one hostile element: 2 symbolic bytes (0x21-0x7e) in a source pointer, an individual pointer, a surname or a place name; two people whose names collapse to one key; places named like fixed pages; all page groups, show mode"},
 			{Name: "VerifC19_Determinism", Pkg: "html", Quick: tierSpec{Cases: 6}, Thorough: tierSpec{Cases: 6}, Sched: -1, MapOrder: true, Invariant: []string{"site"},
 				Bounds: "a 4-person / 1-family / 1-source document in 3 visibility modes x jobs 1,2, preceded or not by publishing another document in the same execution, under four map iteration policies applied to every map range (insertion order, reversed, rotated, adjacent pairs swapped) with the deterministic goroutine scheduler"},
+			{Name: "VerifC19_Races", Pkg: "html", Quick: tierSpec{Cases: 6}, Thorough: tierSpec{Cases: 6}, Sched: -2, Race: true,
+				Bounds: "publishing the family document with 2 and 3 jobs x 3 visibilities under the happens-before monitor (fair schedule); each report is confirmed natively with the Go race detector"},
 			{Name: "VerifC19_Faults", Pkg: "html", Quick: tierSpec{Cases: 4}, Thorough: tierSpec{Cases: 4}, Sched: -1,
 				Bounds: "file writer failing at the k-th file for every k, jobs 1 and 2"},
 		},
@@ -296,6 +299,8 @@ var registry = []propertySpec{
 		Harnesses: []harnessSpec{
 			{Name: "VerifC11_Compare", Quick: tierSpec{Cases: 48}, Thorough: tierSpec{Cases: 176}, Sched: 1, Invariant: []string{"matching"},
 				Bounds: "8 input scenarios (renumbered edited copy, shared pointers, duplicated unique id, identical twins, empty sides, crossed unique ids, a symbolic name byte) x Jobs in {0,1,2,3} with the default thresholds, Jobs in {0,1} with a symbolic MinimumWeightedSimilarity in [0,1] (thorough also Jobs 0..3 x 0/0, 1/1, 0/1, 1/0); every schedule of the goroutine pipeline with at most 1 pre-emption at channel, sync.Map and mutex operations"},
+			{Name: "VerifC11_Races", Quick: tierSpec{Cases: 16}, Thorough: tierSpec{Cases: 16}, Sched: -2, Race: true,
+				Bounds: "the 8 scenarios with Jobs 2 and 3 under the happens-before monitor (vector clocks over go, channel, sync.Map, Mutex, WaitGroup, Once): unordered conflicting accesses of the interpreted code to struct fields, slice elements, globals and maps; each report is confirmed natively with the Go race detector"},
 		},
 		Assumptions: []string{"goroutines are interleaved at channel, sync.Map, mutex, WaitGroup and Sleep operations only (sequentially consistent memory between them)"},
 		Outside:     "GOMAXPROCS, true parallelism and weak-memory effects, Jobs > 3, lists of more than 4 individuals, the 'gedcom diff' process",
